@@ -71,7 +71,7 @@ impl Property for C20 {
     type Case = Case;
     const ID: &'static str = "C20";
     fn rule() -> &'static str {
-        "families: planar triangulated disks built in 2D by the harness (jittered grids 3x3..16x16 quick / 40x40 thorough with random diagonals, strips of aspect up to 1:30, L-shaped non-convex outlines, fans) with shuffled vertex numbering and face order, all-CCW or all-CW winding, lifted by an arbitrary isometry, a fifth of them with 1-3 unreferenced vertices appended to the vertex list, in the generated length unit (cells 0.5..4) or scaled as a whole by 1e-7..1e4; polygonal disks with two needle faces (apex angle 1e-6..1e-3 rad) on a short interior edge; curved disks (height fields, domes, creases, cones) for the invariance clause; non-disks (closed solids, tubes with two boundary loops, two components, a fin making an edge shared by three faces, bow-tie of two disks, grid with an interior hole) for the rejection clause; meshes carrying a UV map that is an affine image of their planar layout with random (face, barycentric, height) samples. Oracle: edge lengths and triangle areas preserved, one orientation sign, result finite; flatten(T mesh) equals flatten(mesh) up to a planar rigid motion; Err for non-disks; UV round trip. Non-trivial: at least one interior vertex, shuffled numbering and a pose that is not axis-aligned. Distinct = distinct canonical JSON."
+        "families: planar triangulated disks built in 2D by the harness (jittered grids 3x3..16x16 quick / 40x40 thorough with random diagonals, strips of aspect up to 1:30, L-shaped non-convex outlines, fans) with shuffled vertex numbering and face order, all-CCW or all-CW winding, lifted by an arbitrary isometry, a fifth of them with 1-3 unreferenced vertices appended to the vertex list, in the generated length unit (cells 0.5..4) or scaled as a whole by 1e-7..1e4; polygonal disks with two needle faces (apex angle 1e-6..1e-3 rad) on a short interior edge; curved disks (height fields, domes, creases, cones) for the invariance clause; non-disks (closed solids, tubes with two boundary loops, two components, a fin making an edge shared by three faces, bow-tie of two disks, grid with an interior hole) for the rejection clause; meshes carrying a UV map that is an affine image of their planar layout with random (face, barycentric, height) samples, a third of the on-surface ones exactly on an edge of their face. Oracle: edge lengths and triangle areas preserved, one orientation sign, result finite; flatten(T mesh) equals flatten(mesh) up to a planar rigid motion; Err for non-disks; UV round trip. Non-trivial: at least one interior vertex, shuffled numbering and a pose that is not axis-aligned. Distinct = distinct canonical JSON."
     }
     fn cases(t: Tier) -> u32 {
         t.pick(50_000, 200_000)
@@ -80,7 +80,7 @@ impl Property for C20 {
         Some(Duration::from_secs(30))
     }
     fn expected_labels() -> Vec<&'static str> {
-        vec!["planar", "planar_cw", "planar_ccw", "curved", "reject_closed", "reject_two_loops", "reject_two_components", "reject_nonmanifold", "reject_bowtie", "reject_hole", "uv", "nonconvex", "unit_below_1e-4", "unreferenced_vertices", "planar_needle_faces"]
+        vec!["planar", "planar_cw", "planar_ccw", "curved", "reject_closed", "reject_two_loops", "reject_two_components", "reject_nonmanifold", "reject_bowtie", "reject_hole", "uv", "nonconvex", "unit_below_1e-4", "unreferenced_vertices", "planar_needle_faces", "uv_sample_on_edge"]
     }
     fn strategy(t: Tier) -> BoxedStrategy<Case> {
         let nmax = t.pick(16, 40);
@@ -449,7 +449,16 @@ fn uv(spec: &MeshSpec, affine: &[f64; 6], samples: &[(u16, f64, f64, f64)]) -> V
             u *= 0.5;
             w *= 0.5;
         }
-        let bc = [1.0 - u - w, u, w];
+        let mut bc = [1.0 - u - w, u, w];
+        // a third of the surface samples lie exactly on an edge of their face (one barycentric weight zero), on each of
+        // the three edges in turn
+        if *h == 0.0 && *b0 < 0.35 {
+            let e = (*fi as usize / 7) % 3;
+            bc = [0.0; 3];
+            bc[e] = 1.0 - *b1;
+            bc[(e + 1) % 3] = *b1;
+            cx.label("uv_sample_on_edge");
+        }
         let (a, b, c) = soup.tri(i);
         let n = tri_normal(&a, &b, &c).unwrap();
         let on = Point3::from(a.coords * bc[0] + b.coords * bc[1] + c.coords * bc[2]);
